@@ -5,7 +5,7 @@ VARIABLES rows, cols, h
 vars == <<rows, cols, h>>
 Init == rows \in 1..RMAX /\ cols \in 1..CMAX /\ h \in 0..HMAX
 Next == UNCHANGED vars
-RoundTrip == RoundTripOK(rows, cols, h) /\ ListRoundTripOK(rows, h)
+RoundTrip == RoundTripOK(rows, cols, h) /\ ListRoundTripOK(rows, h) /\ \A hb \in 0..(2 ^ h - 1) : RoundTripBlankOK(rows, cols, h, hb)
 \* skipping fewer lines than the header has never yields the table back (the reader stops at the header text)
 WrongSkip == h >= 1 => LET r == ImportTable(FileOf(rows, cols, h), h - 1) IN r = Undefined \/ r[2] # cols \/ r[1] # rows
 =============================================================================
